@@ -16,9 +16,12 @@ Record obs := Obs {
   ob_vf64 : bool; ob_fi64 : bool; ob_mapi64 : bool  (* dtypes: float64, int64, int64 *) }.
 
 Inductive case :=
-| CSlice (vs : list (vec3 Q)) (fs : list face) (ref n : vec3 Q) (mask : option (list bool)) (o : result obs)
+| CSlice (vdt : vdtype) (vs : list (vec3 Q)) (fs : list face) (ref n : vec3 Q) (mask : option (list bool)) (o : result obs)
 (* a face array with negative (wrapping) entries *)
 | CSliceZ (vs : list (vec3 Q)) (fsz : list zface) (ref n : vec3 Q) (mask : option (list bool)) (o : result obs)
+(* slice_faces_plane called directly (no wrapper): dtype of the returned vertices, faces int64? *)
+| CKernelDt (vdt : vdtype) (vs : list (vec3 Q)) (fs : list face) (ref n : vec3 Q) (mask : option (list bool))
+            (o : result (vdtype * bool))
 | CUnique (vals uniq inv : list nat).
 
 Definition face_rows (fs : list face) : list (list nat) := map (fun f => [fget f 0; fget f 1; fget f 2]) fs.
@@ -41,9 +44,28 @@ Definition check_obs (mag : Q) (m : mesh_out Q) (o : obs) : bool :=
   Nat.eqb (ob_vcols o) 3 && Nat.eqb (ob_fcols o) 3 && ob_ndims_ok o &&
   ob_vf64 o && ob_fi64 o && ob_mapi64 o.
 
+(* the dtype model of the wrapper against the observed dtypes (or the exception class) *)
+Definition is_f64 (d : vdtype) : bool := match d with VF64 => true | _ => false end.
+Definition is_i64 (d : idtype) : bool := match d with I64 => true | _ => false end.
+Definition check_dtypes (m : result out_dtypes) (o : result obs) : bool :=
+  match m, o with
+  | Ok d, Ok ob => Bool.eqb (ob_vf64 ob) (is_f64 (dt_v d)) && Bool.eqb (ob_fi64 ob) (is_i64 (dt_f d)) &&
+                   Bool.eqb (ob_mapi64 ob) (is_i64 (dt_map d))
+  | Raise e, Raise e' => exn_eqb e e'
+  | _, _ => false
+  end.
+
+Definition vdtype_eqb (a b : vdtype) : bool :=
+  match a, b with VF64, VF64 | VF32, VF32 | VF16, VF16 | VInt, VInt => true | _, _ => false end.
+
 Definition check_slicing (c : case) : bool :=
   match c with
-  | CSlice vs fs ref n mask o => res_agree (check_obs (mesh_mag vs ref)) (slice_triangles_by_plane QOps vs fs ref n mask) o
+  | CSlice vdt vs fs ref n mask o =>
+      res_agree (check_obs (mesh_mag vs ref)) (slice_triangles_by_plane QOps vs fs ref n mask) o &&
+      check_dtypes (slice_triangles_by_plane_dtypes QOps vdt vs fs ref n mask) o
   | CSliceZ vs fsz ref n mask o => res_agree (check_obs (mesh_mag vs ref)) (slice_triangles_by_plane_z QOps vs fsz ref n mask) o
+  | CKernelDt vdt vs fs ref n mask o =>
+      res_agree (fun p ob => vdtype_eqb (dt_v (kernel_dtypes vdt p)) (fst ob) && Bool.eqb (is_i64 (dt_f (kernel_dtypes vdt p))) (snd ob))
+                (slice_faces_plane_path QOps (merge_tol QOps) vs fs n ref (option_map flatnonzero mask)) o
   | CUnique vals u i => nat_list_eqb (fst (unique_bincount vals)) u && nat_list_eqb (snd (unique_bincount vals)) i
   end.
